@@ -72,10 +72,31 @@ def load_registry():
 MEM_LIMIT_GB = int(os.environ.get("VERIF_MEM_GB", "12"))
 
 
-def _limit_mem():
-    import resource
-    lim = MEM_LIMIT_GB * (1 << 30)
-    resource.setrlimit(resource.RLIMIT_AS, (lim, lim))
+def _watch_mem(pgid, stop):
+    """kill any cbmc process of our process group whose resident set exceeds the limit (then Kani reports
+    'CBMC failed' for that harness, which the driver maps to inconclusive)"""
+    page = os.sysconf("SC_PAGE_SIZE")
+    while not stop.is_set():
+        try:
+            for d in os.listdir("/proc"):
+                if not d.isdigit():
+                    continue
+                try:
+                    st = open(f"/proc/{d}/stat").read()
+                    comm = st[st.index("(") + 1:st.rindex(")")]
+                    if comm != "cbmc":
+                        continue
+                    fields = st[st.rindex(")") + 2:].split()
+                    if int(fields[2]) != pgid:
+                        continue
+                    rss = int(fields[21]) * page
+                    if rss > MEM_LIMIT_GB * (1 << 30):
+                        os.kill(int(d), signal.SIGKILL)
+                except (OSError, ValueError):
+                    continue
+        except OSError:
+            pass
+        stop.wait(2.0)
 
 
 def run_kani(scratch, pkg, harnesses, timeout_s, harness_timeout=600, extra=None):
@@ -93,8 +114,12 @@ def run_kani(scratch, pkg, harnesses, timeout_s, harness_timeout=600, extra=None
     env.pop("RUSTUP_TOOLCHAIN", None)
     t0 = time.time()
     try:
+        import threading
         p = subprocess.Popen(cmd, cwd=src, env=env, stdout=subprocess.PIPE, stderr=subprocess.STDOUT,
-                             text=True, start_new_session=True, preexec_fn=_limit_mem)
+                             text=True, start_new_session=True)
+        stop = threading.Event()
+        th = threading.Thread(target=_watch_mem, args=(p.pid, stop), daemon=True)
+        th.start()
         try:
             out, _ = p.communicate(timeout=timeout_s)
             rc = p.returncode
@@ -102,6 +127,8 @@ def run_kani(scratch, pkg, harnesses, timeout_s, harness_timeout=600, extra=None
             os.killpg(p.pid, signal.SIGKILL)
             out, _ = p.communicate()
             rc = -9
+        finally:
+            stop.set()
     except FileNotFoundError as e:
         return {"cmd": cmd, "rc": 127, "out": str(e), "wall": 0.0}
     return {"cmd": cmd, "rc": rc, "out": out, "wall": time.time() - t0}
